@@ -331,6 +331,7 @@ def cross_check_oracle(binary, prop, seed, n):
         if len(parts) != 5:
             continue
         bits, inhex, status, evs, code = parts
+        code = bytes.fromhex(code).decode("utf-8")
         if status != "halted":
             skipped += 1
             continue
